@@ -441,7 +441,8 @@ func ProcessGetAllMinionSearchesRequest(ctx *fasthttp.RequestCtx, orgID int64) {
 func ProcessUpdateAlertRequest(ctx *fasthttp.RequestCtx) {
 	type Input struct {
 		alertutils.AlertConfig
-		AlertId string `json:"alert_id"`
+		AlertId                  string `json:"alert_id"`
+		MetricsQueryParamsString string `json:"metricsQueryParams"`
 	}
 
 	if databaseObj == nil {
@@ -481,6 +482,10 @@ func ProcessUpdateAlertRequest(ctx *fasthttp.RequestCtx) {
 	alertToBeUpdated.EvalWindow = input.EvalWindow
 	alertToBeUpdated.EvalInterval = input.EvalInterval
 	alertToBeUpdated.Message = input.Message
+	// the query of a Metrics alert is not part of AlertConfig
+	if input.MetricsQueryParamsString != "" {
+		alertToBeUpdated.MetricsQueryParamsString = input.MetricsQueryParamsString
+	}
 
 	if alertToBeUpdated.EvalInterval == 0 {
 		utils.SendError(ctx, "EvalInterval should be greater than zero", fmt.Sprintf("EvalWindow: %v, EvalInterval:%v", alertToBeUpdated.EvalWindow, alertToBeUpdated.EvalInterval), nil)
